@@ -42,6 +42,8 @@ def run_case(case: dict[str, Any]) -> dict[str, Any]:  # noqa: C901, PLR0912
     }
     if case.get("assign") is not None:
         cfg["gradient"]["samplers"] = case["assign"]
+    if case.get("vtypes") is not None:  # variable types (REAL / INTEGER) say nothing about perturbations
+        cfg["variables"]["types"] = case["vtypes"]
     transforms = None
     scale = np.ones(n)
     if case["scales"] is not None:
@@ -179,7 +181,8 @@ def hypothesis_shard(item: dict[str, Any]) -> Collector:
             assign = [draw(st.integers(-1, s_n - 1)) for _ in range(n)]
             if all(a < 0 for a in assign):
                 assign[0] = s_n - 1
-        return {"split": draw(st.sampled_from([None, None, "same", "near", "far"])), "S": s_n, "assign": assign, "nocopy": draw(st.booleans()), "n": n, "R": r_n, "P": p_n, "x": x, "lb": lb, "ub": ub, "types": types, "magnitudes": mags,
+        return {"vtypes": [draw(st.sampled_from([1, 2])) for _ in range(n)] if draw(st.integers(0, 3)) == 0 else None,
+                "split": draw(st.sampled_from([None, None, "same", "near", "far"])), "S": s_n, "assign": assign, "nocopy": draw(st.booleans()), "n": n, "R": r_n, "P": p_n, "x": x, "lb": lb, "ub": ub, "types": types, "magnitudes": mags,
                 "boundary": [draw(st.integers(1, 3)) for _ in range(n)], "samples": samples,
                 "scales": [draw(st.sampled_from([0.5, 2.0, 10.0, 3.0])) for _ in range(n)] if scaled else None,
                 "offsets": [draw(st.sampled_from([0.0, 1.0, -2.5])) for _ in range(n)] if scaled else None}
